@@ -280,7 +280,7 @@ class ValidateIsPossible(Contract):
     params = ['self', 'type_name', 'nodes', 'message', 'path', 'schema', 'locations']
     self_class = 'FragmentSpreadIsPossible'
     inline = (F + '_validate_node',)
-    timeout_ms = 8000
+    timeout_ms = 20000
 
     def args(self, en, names):
         self.A = super().args(en, names)
